@@ -10,6 +10,7 @@ import itertools
 from .. import core, harness, vloop
 
 PROP = 'C20'
+TECHNIQUE = ('runtime monitoring: reference accumulator compared with Counter outputs and return values over exhaustive short and random long event sequences')
 LEVEL = 'exploration'
 RULE = ("case = (modulo, initdef, event sequence [, stored persistent value]); exhaustive over all "
         "sequences up to length L of a fixed operation alphabet (enumerated, distinct by "
